@@ -27,6 +27,13 @@ SEMANTIC_ASSUMPTIONS = [
     "finite sets: cardinality axioms instantiated at add/discard (Card(S+x)=Card(S)+[x notin S], Card=0 iff empty)",
     "bools and ints are not mixed as elements of one set / keys of one dict",
     "x in range(a,b,s) is uninterpreted except: s>=1 & member => a<=x<b ; s==1 => member iff a<=x<b",
+    "built-in sets/lists/dicts held in plain attributes are modelled as values: two attributes holding the *same* "
+    "container object (aliasing, e.g. a shared mutable default argument) are not distinguished from two equal copies "
+    "(the isolation clause of C04 is covered by the bounded history stand-in only)",
+    "truthiness of a bytes value held in a dynamically typed field is not modelled (treated as true); the functions under "
+    "contract test such fields with `is None` only",
+    "floats are not modelled; re.findall is uninterpreted; exception classes of /repo take their base from the class statement",
+    "z3 runs on queries over sequences are separate processes with a hard time limit",
 ]
 
 
@@ -159,7 +166,9 @@ def run_property(pid, tier, seed):
     for c, ob in done:
         fi = c.fi
         functions.append({"target": driver.contract_name(c), "file": "python/gtirb/" + fi.file,
-                          "lines": list(fi.lines), "ast_sha256_16": fi.ast_hash(), "obligations": len(ob)})
+                          "lines": list(fi.lines), "ast_sha256_16": fi.ast_hash(), "obligations": len(ob),
+                          **({"verified_part": c.part_note} if getattr(c, "part_note", None) else {}),
+                          **({"statements_dropped": c.dropped} if getattr(c, "dropped", None) else {})})
     exit_code = 0
     replay_dir = os.path.join(OUT_ROOT, "replays", pid)
     lines = []
@@ -281,6 +290,16 @@ def run_property(pid, tier, seed):
         "wall_s": round(wall, 2),
         "violations": len(violations) + len(b_viol),
     }
+    try:
+        import jsonschema
+        jsonschema.validate(json.loads(json.dumps(ev, default=str)), json.load(open("/root/.vp/EVIDENCE.schema.json")))
+    except ImportError:
+        pass
+    except FileNotFoundError:
+        pass
+    except Exception as e:      # schema violation: a checker error, never a silent bad evidence file
+        print("CHECKER-ERROR property=%s evidence does not match EVIDENCE.schema.json: %s" % (pid, str(e)[:200]))
+        exit_code = 3 if exit_code == 0 else exit_code
     os.makedirs(os.path.join(OUT_ROOT, "evidence"), exist_ok=True)
     with open(os.path.join(OUT_ROOT, "evidence", pid + ".json"), "w") as f:
         json.dump(ev, f, indent=1, default=str)
